@@ -32,6 +32,7 @@ import exabgp.bgp.message.update.attribute.tunnel_encap.sr_policy  # noqa: F401,
 from exabgp.bgp.message.notification import Notify
 from exabgp.bgp.message.update.attribute.attribute import Attribute
 from exabgp.bgp.message.update.attribute.tunnel_encap.tlv import TunnelTypeTLV
+from exabgp.util import json_members
 from exabgp.util.types import Buffer
 
 _TUNNEL_TLV_HEADER = 4  # type(2) + length(2)
@@ -62,7 +63,8 @@ class TunnelEncap(Attribute):
         return self._attribute(value)
 
     def json(self, compact: bool | None = None) -> str:
-        parts = ', '.join(tlv.json() for tlv in self.tunnel_tlvs)
+        # RFC 9012 allows several TLVs of one tunnel type: they are listed under their key
+        parts = json_members(tlv.json() for tlv in self.tunnel_tlvs)
         return '{' + parts + '}'
 
     def __str__(self) -> str:
